@@ -67,7 +67,7 @@ Record sstate : Type := {
   s_req : list (N * fstatus);       (* ids requested so far (single use) *)
   s_fin_in : bool;
   s_fin_out : bool;
-  s_rdclosed : bool;                (* the reader goroutine has stopped: no more In events *)
+  s_rdclosed : bool;                (* the reader goroutine has stopped: no more Inp events *)
   s_err : bool;                     (* error latch: the call has to fail *)
   s_soft : bool;                    (* a request raced its own STAT: the call may fail *)
   s_prog : N;                       (* last progress value *)
@@ -160,6 +160,16 @@ Definition sender_acc (exp : list entry) (s : sstate) (e : event) : option sstat
   match s_ret s with
   | Some _ => None                                   (* nothing happens after the call returned *)
   | None =>
+    if s_final s then
+      (* the final progress call is deferred to the very end of run(): only the return follows *)
+      match e with
+      | Return true =>
+        if negb (s_err s) && s_fin_in s && s_fin_out s && s_endm s && all_done (s_req s)
+        then Some (set_ret s true) else None
+      | Return false => if s_err s || s_soft s then Some (set_ret s false) else None
+      | _ => None
+      end
+    else
     match e with
     | Out (PStat (Some st)) =>
       if s_endm s then None
@@ -185,7 +195,7 @@ Definition sender_acc (exp : list entry) (s : sstate) (e : event) : option sstat
     | Out PFin => if s_fin_in s && negb (s_fin_out s) then Some (set_fin_out s) else None
     | Out (PErr _) => if s_err s || s_soft s then Some s else None
     | Out (PReq _) => None
-    | In p =>
+    | Inp p =>
       if s_rdclosed s then None
       else match p with
            | PReq n => Some (on_req exp s n)
@@ -195,16 +205,13 @@ Definition sender_acc (exp : list entry) (s : sstate) (e : event) : option sstat
            end
     | InEof => if s_rdclosed s then None else Some (set_fail s)
     | Fault => Some (set_err s)
-    | Progress n l =>
-      if s_final s then None
-      else if N.leb (s_prog s) n then Some (set_prog s n l) else None
-    | Return true =>
-      if s_final s && negb (s_err s) && s_fin_in s && s_fin_out s && s_endm s && all_done (s_req s)
-      then Some (set_ret s true) else None
-    | Return false =>
-      if s_final s && (s_err s || s_soft s) then Some (set_ret s false) else None
+    | Progress n l => if N.leb (s_prog s) n then Some (set_prog s n l) else None
+    | Return _ => None                               (* the deferred final progress call comes first *)
     end
   end.
+
+(* the whole STAT sequence of a successful run *)
+Definition full_stats (exp : list entry) : list (option stat) := map (fun e => Some (fst e)) exp ++ [None].
 
 Definition sender_run (exp : list entry) (tr : list event) : option sstate := run (sender_acc exp) sinit tr.
 
